@@ -1,0 +1,19 @@
+//go:build verif
+
+package single
+
+// Contracts for the govc verifier (/verif). Comment-only.
+
+//@ func (dgs *DAGService) Add
+//@   opts trusted
+//@   modifies heap(DAGService)
+
+// "On success exactly the root is pinned with the requested options and the allocations the blocks were sent to"
+//@ func (dgs *DAGService) Finalize
+//@   property C13
+//@   ensures [root-returned] res == root
+//@   ensures [exactly-one-pin-request] rpcN == old(rpcN) + 1 && rpcLastSvc == "Cluster" && rpcLastMethod == "Pin"
+//@   ensures [pins-the-root-with-the-options] rootPin.Cid == root && rootPin.PinOptions == old(dgs.pinOpts) && rpcLastArg == any(rootPin)
+//@   ensures [allocations-are-the-block-destinations] old(dgs.pinOpts.ReplicationFactorMin) >= 0 ==> rootPin.Allocations == old(dgs.dests)
+//@   ensures [everywhere-means-empty] old(dgs.pinOpts.ReplicationFactorMin) < 0 ==> len(rootPin.Allocations) == 0
+//@   modifies rpcN, rpcLastSvc, rpcLastMethod, rpcLastArg, heap(api.Pin), heap(DAGService)
